@@ -488,3 +488,53 @@ func verifC01TornCommit() {
 	}
 	verifReach("end")
 }
+
+// C01, file numbers across concurrent commits: two writers (two families of one store) each take a
+// file number, commit their flush - one of them two flushes -, every interleaving within the
+// pre-emption bound; then the store is reopened: every commit that returned is visible, and the next
+// file number handed out is above every file the recovered state references (a number is never
+// handed out twice, before or after the reopen).
+func verifC01ConcurrentCommits() {
+	dir := verifStoreDir()
+	verifInstallFS()
+	vs := NewStoreVersionSet(dir, verifCache{}, 2)
+	vs.CreateFamilyVersion("f", 1)
+	vs.CreateFamilyVersion("g", 2)
+	verifAssert(vs.Recover() == nil, "a fresh store opens")
+	var handed []table.FileNumber
+	flush := func(family string, id FamilyID) {
+		n := vs.NextFileNumber()
+		handed = append(handed, n)
+		el := NewEditLog(id)
+		el.Add(CreateNewFile(0, NewFileMeta(n, 1, 9, 50)))
+		verifAssert(vs.CommitFamilyEditLog(family, el) == nil, "commit returns")
+	}
+	verifSpawn(func() { flush("f", 1) })
+	verifSpawn(func() {
+		flush("g", 2)
+		flush("g", 2)
+	})
+	verifJoinAll()
+	for i := range handed {
+		for j := range handed {
+			verifAssert(i == j || handed[i] != handed[j], "a file number is handed out once")
+		}
+	}
+	// reopen
+	vs2 := NewStoreVersionSet(dir, verifCache{}, 2)
+	f2 := vs2.CreateFamilyVersion("f", 1)
+	g2 := vs2.CreateFamilyVersion("g", 2)
+	verifAssert(vs2.Recover() == nil, "the store reopens")
+	count := 0
+	next := vs2.NextFileNumber()
+	for _, fv := range []FamilyVersion{f2, g2} {
+		snap := fv.GetSnapshot()
+		for _, fm := range snap.GetCurrent().GetAllFiles() {
+			count++
+			verifAssert(next > fm.GetFileNumber(), "a file number handed out after recovery is above every referenced file")
+		}
+		snap.Close()
+	}
+	verifAssert(count == 3, "every commit that returned is visible after reopening")
+	verifReach("end")
+}
